@@ -60,7 +60,9 @@ def run(prog: Program, L: Ledger) -> None:
     tp = fb.methods.get("calculate_trial_probability")
     if not (step and cg and gz and tp):
         raise AnalysisError("ForceBias anchors missing")
-    step, cg, gz, tp = (flat(prog, f_, fb) for f_ in (step, cg, gz, tp))
+    KEEP = ("get_zeta", "calculate_trial_probability", "calculate_gamma")
+    step = flat(prog, step, fb, keep=KEEP, public_methods=True)
+    cg, gz, tp = (flat(prog, f_, fb) for f_ in (cg, gz, tp))
 
     # ------------------------------------------------------------------ B: zeta draws
     rets = [s for s in gz.body() if isinstance(s, ast.Return)]
@@ -78,13 +80,17 @@ def run(prog: Program, L: Ledger) -> None:
             f"zeta is drawn as `{norm(zc)}`: it must be uniform on [−1, 1) from the simulation generator", f"zeta range [{lo}, {hi}) ⇒ |Δx| can reach {hi}·delta·(m_min/m)^p" if okz else "", norm(zc))
     # every assignment to self.zeta (whole or masked) takes its value from get_zeta()
     nz = 0
-    for f in fb.methods.values():
+    for f0 in fb.methods.values():
+        # helpers the step calls are seen through (a `sample_zeta()` that draws, loops and returns `self.zeta`)
+        f = flat(prog, f0, fb, keep=KEEP, public_methods=True) if f0.kind == "method" and f0.name not in KEEP else f0
         for st in walk_no_nested(f.node):
             if isinstance(st, (ast.Assign, ast.AugAssign)):
                 tg = st.targets if isinstance(st, ast.Assign) else [st.target]
                 for t in tg:
                     base = t.value if isinstance(t, ast.Subscript) else t
                     if norm(base) == "self.zeta":
+                        if isinstance(st, ast.Assign) and norm(st.value) == "self.zeta" and not isinstance(t, ast.Subscript):
+                            continue  # `self.zeta = self.zeta` left by an inlined helper that returns the attribute
                         nz += 1
                         L.check(isinstance(st, ast.Assign) and norm(st.value) == "self.get_zeta()", "B", f"{f.qualname}:zeta-def", f"{f.module.relpath}:{st.lineno}",
                                 f"zeta defined by `{norm(st)}` rather than a fresh get_zeta() draw", "zeta outside [−1,1) or not from the generator", norm(st))
@@ -127,10 +133,14 @@ def run(prog: Program, L: Ledger) -> None:
     if setmom is not None:
         t.env["displacement"] = sp.simplify(sp.sympify(setmom) / vocab.sym("M", positive=True))
     disp_expr = sp.sympify(t.env.get("displacement", 0))
+    resolved_caches: set[str] = set()
     for txt in [k for k, s_ in list(vocab.unknown.items()) if k.startswith("self.") and s_ in disp_expr.free_symbols]:
         attr = txt.split(".", 1)[1]
-        defs_ = [(f_, st_, v_) for f_, st_, v_ in assigns.get(attr, []) if v_ is not None]
-        if len(defs_) != 1:
+        from ..normalize import expand_expression_methods
+
+        defs_ = [(f_, st_, expand_expression_methods(prog, fb, v_, {"self"})) for f_, st_, v_ in assigns.get(attr, []) if v_ is not None]
+        # several definitions are one cache when they all compute the same expression (the setter and a refresher)
+        if not defs_ or len({norm(v_) for _f, _s, v_ in defs_}) != 1:
             continue
         f_def, st_def, v_def = defs_[0]
         try:
@@ -139,6 +149,9 @@ def run(prog: Program, L: Ledger) -> None:
             continue
         disp_expr = disp_expr.subs(vocab.unknown[txt], val)
         t.env["displacement"] = disp_expr
+        if setpos is not None:
+            setpos = (setpos[0], sp.sympify(setpos[1]).subs(vocab.unknown[txt], val))
+        resolved_caches.add(txt)
         for c_ in list(vocab.unknown):
             pass
         sources = {n_.attr for n_ in ast.walk(v_def) if isinstance(n_, ast.Attribute) and norm(n_.value) == "self"}
